@@ -111,11 +111,21 @@ def stage1(tier, stats):
 
 
 def is_reflection(b):
+    """Edges of the reflection scenario that ARE the attack: a reflected RespHello signature handed to the responder
+    whose peer key it names, or a RespHello carrying key K's TIMESTAMP signature handed to an initiator right after
+    an honest InitHello of K was verified somewhere (implementations that cache verification results)."""
     h = b["hist"][-1]
     if h["a"] != "deliver":
         return False
     t = b["msgs"][h["m"] - 1]
-    return t["t"] == "ID" and t["sig"] == "x" + h["rk"]
+    if t["t"] == "ID" and t["sig"] == "x" + h["rk"]:
+        return True
+    if t["t"] == "RH" and t["sig"] == "t" + t["key"] and len(b["hist"]) >= 2:
+        p = b["hist"][-2]
+        if p["a"] == "deliver" and p.get("res") == "hs":
+            pm = b["msgs"][p["m"] - 1]
+            return pm["t"] == "IH" and pm["by"] != "M" and pm["key"] == t["key"]
+    return False
 
 
 def classify(op):
